@@ -1,8 +1,22 @@
 CHECK = dict(
-    engine="llist", design_ref="4 / C11",
-    text="placeholder",
-    note="placeholder",
-    technique="Coq proof (refinement to a FIFO byte list, induction over operation lists) + differential traces",
+    engine="llist", design_ref="4 / C11, Appendix A.2",
+    text="Full proof. linked_list_buffer.go is transcribed method by method into an executable Gallina model "
+         "(node list + size/bytes counters, pop/pushFront/pushBack, Read with re-slice-and-pushFront, Peek/PeekWithBytes "
+         "with the MaxInt32 convention and ErrShortBuffer guard, Discard, ReadFrom over a reader script with 512-byte "
+         "nodes, WriteTo over a writer script, Append aliasing the caller's memory via symbolic bytes). Proved for every "
+         "finite operation list, all sizes and all contract-respecting reader/writer scripts: refinement to a FIFO byte "
+         "list (content = concat segs) on symbolic bytes and on byte values with caller memory; Read/Peek/Pop/Discard/"
+         "WriteTo/push spelled out on the queue; bytes = sum of lengths, size = number of nodes; IsEmpty <-> Buffered = 0 "
+         "(no empty node); caller writes to buffers passed to PushBack/PushFront never change any later answer "
+         "(simulation); ReadFrom stores and counts every byte the reader returned incl. with EOF/error; no panic. "
+         "Tied to /repo by differential execution of the real linkedlist.Buffer against the extracted model after every "
+         "operation (return values, Peek(-1) node contents, Buffered/Len/IsEmpty) plus a reference-FIFO oracle.",
+    note="Three defects of the pinned tree were reproduced as _refuted witnesses, replayed and fixed in /repo "
+         "(ReadFrom dropping bytes returned with EOF/error, empty node after a (0,nil) read, WriteTo losing the rest of "
+         "a node on writer error); replays are kept in corpus/C11. Assumes pool memory is referenced by the buffer "
+         "alone (C12) and the head/tail/next pointer structure behaves as a list (covered by the differential runs only). "
+         "PeekWithBytes is modelled as coded: its ErrShortBuffer guard compares n with the list alone (see C10).",
+    technique="Coq proof (refinement to a FIFO byte list, induction over operation lists, store simulation) + differential traces",
 )
 ENGINE = dict(name="llist", path="coq/Model/LList.v", serves_properties=["C11"],
-              kind_free_text="Gallina model of pkg/buffer/linkedlist (symbolic bytes for Append aliasing) + drv-llist")
+              kind_free_text="Gallina model of pkg/buffer/linkedlist (symbolic bytes for Append aliasing, reader/writer scripts) + FIFO spec Spec/LListSpec.v + drv-llist")
